@@ -1157,6 +1157,9 @@ func (p *parser) parseBlock(block text.BlockReader, parent ast.Node, pc Context)
 	escaped := false
 	source := block.Source()
 	block.Reset(parent.Lines())
+	// the text that was flushed because an inline parser had to be consulted
+	// at a space
+	var flushedAtSpace ast.Node
 	for {
 	retry:
 		line, _ := block.PeekLine()
@@ -1224,6 +1227,9 @@ func (p *parser) parseBlock(block text.BlockReader, parent ast.Node, pc Context)
 						parent.AppendChild(parent, inlineNode)
 						goto retry
 					}
+					if isSpace && i != 0 {
+						flushedAtSpace = parent.LastChild()
+					}
 				}
 			}
 			if escaped {
@@ -1263,6 +1269,14 @@ func (p *parser) parseBlock(block text.BlockReader, parent ast.Node, pc Context)
 				if last, ok := parent.LastChild().(*ast.Text); ok && last.Segment.Stop == diff.Start &&
 					!last.IsRaw() && !last.SoftLineBreak() && !last.HardLineBreak() {
 					last.Segment = last.Segment.TrimRightSpace(source)
+					if !last.Segment.IsEmpty() && ast.Node(last) == flushedAtSpace {
+						// The line break belongs to that text: no empty text
+						// node is left between it and the next line.
+						last.SetSoftLineBreak(lineBreakFlags&lineBreakSoft != 0)
+						last.SetHardLineBreak(lineBreakFlags&lineBreakHard != 0)
+						block.AdvanceLine()
+						continue
+					}
 				}
 			}
 			text = ast.NewTextSegment(trimmed)
